@@ -57,6 +57,7 @@ type zzDP struct {
 	nrep    int
 	repMin  int // reports per query/update: repMin..repMax (C11 relaxation); default exactly per contract
 	relaxed bool
+	repCap  int // relaxed: at most this many reports per call (0: two)
 	canned  []report.USAReport // if set, returned instead of fresh reports (C10)
 }
 
@@ -281,7 +282,11 @@ func (d *zzDP) QueryURR(seid uint64, id uint32) ([]report.USAReport, error) {
 
 // reports returns min..2 reports for one URR (C11 relaxation of the contract).
 func (d *zzDP) reports(id uint32, min int) []report.USAReport {
-	n := min + nondetChoice("nreports", 3-min)
+	top := 2
+	if d.repCap > 0 {
+		top = d.repCap
+	}
+	n := min + nondetChoice("nreports", top+1-min)
 	var rs []report.USAReport
 	for i := 0; i < n; i++ {
 		rs = append(rs, d.report(id))
